@@ -41,7 +41,7 @@ def cases(draw, tier="quick"):
     # either side may also be dilating (w.dilate(no_listen=True) at a tape-chosen moment): its dilate-N control
     # records travel through the same mailbox, numbered separately from the application phases
     P["dilate"] = draw(st.sampled_from([[False, False], [False, False], [True, False], [False, True], [True, True]]))
-    P["extra_msg_gets"] = draw(st.sampled_from([0, 0, 1, 3]))
+    P["extra_msg_gets"] = draw(st.sampled_from([0, 1, 2, 3]))
     if draw(st.integers(0, 2)) == 0:
         # one side reads slowly: its inbound queue builds up, so dup/reorder act on many messages at once
         slow = draw(st.integers(0, 1))
